@@ -68,6 +68,13 @@ func c05(p *model.Prog, r *report.Result) {
 			continue
 		}
 		ok, why := s.depthGuarded()
+		if !ok {
+			if ok2, why2 := s.stateGuarded(p); ok2 {
+				ok, why = true, why2
+			} else {
+				why = why + "; " + why2
+			}
+		}
 		r.Check(ok, "C05.REC", "scc|"+s.Name(), p.Pos(s.Funcs[0].Pos()), why, "recursion reachable from published media: "+why)
 	}
 
